@@ -26,6 +26,39 @@ SEEDS = {
  "C18-a": dict(property="C18", change="maybeExpandReadBuffer (both build variants): readStartOff reset to 0 before the pending window is copied",
    needs="the 64 KiB buffer filling exactly while the callback has partially consumed it (readStartOff > 0): committed bytes are delivered again",
    detected_by="C18 R18.4 'the window bound readStartOff is read before any reset of it'"),
+ "C06-a": dict(property="C06", change="handleFallbackData hands the stream a sub-slice of the connection's reused read buffer instead of a copy (`data := buf[:payloadLen]`)",
+   needs="several socket-fallback messages with a slow reader: any later socket event longer than 16 bytes overwrites payload that was not consumed yet (Len stays right, bytes are wrong)",
+   detected_by="C06 R06.5 / C18 R18.6 event-buffer escape analysis (rule added after this seed was missed)"),
+ "C07-a": dict(property="C07", change="Flush: the sticky latch became `s.inFallbackState = !s.sendBuf.isFromShareMemory()` (stream returns to the queue once shared memory is available again)",
+   needs="shared-memory exhaustion followed by recovery while the receiver is already draining the queue: a later queue message is delivered before the earlier socket message",
+   detected_by="C07 R07.2 (non-constant / clearing store to inFallbackState outside reset) and R07.3"),
+ "C08-a": dict(property="C08", change="ReadBytes slow path recycles the exhausted front slice directly (`recycleBuffer(popFront())`) instead of readNextSlice()",
+   needs="a zero-copy read inside slice A, then a ReadBytes straddling A->B, then enough unrelated allocations for the FIFO free list to come round to A before ReleasePreviousRead",
+   detected_by="C08 R08.2 (reader-side recycle of a main-list slice without the pinned decision)"),
+ "C10-a": dict(property="C10", change="exported Close(): the CAS opened->localClosing became an unconditional atomic store",
+   needs="callback mode, the peer's close arriving while OnData runs (halfClosed, OnRemoteClose delivered), then a local Close() before OnData returns: state moves backwards, OnLocalClose fires on top of OnRemoteClose, a second close notification is sent",
+   detected_by="C10 R10.1 (atomic Store on Stream.state)"),
+ "C11-a": dict(property="C11", change="Session.Close no longer closes every stream's notify channel before close(shutdownCh) and the posted teardown",
+   needs="a callback-mode stream whose OnData is blocked in a read when the session closes: Stream.Close returns early (callback in progress), the teardown waits on asyncGoroutineWg forever and stalls the process-wide dispatcher",
+   detected_by="C11 R11.2"),
+ "C12-a": dict(property="C12", change="V3 serverInit: the file-path case returns handleShareMemoryByFilePath's result directly and never sends typeAckShareMemory",
+   needs="a protocol-3 client that shares memory by file path (the library's own client forces v2 for file mappings): server reports success, client times out",
+   detected_by="C12 R12.5 handshake wait/send pairing (rule added after this seed was missed)"),
+ "C14-a": dict(property="C14", change="same edit as C11-a: Session.Close's wake-all-streams pass removed",
+   needs="peer death while a callback-mode stream's OnData is blocked mid-read: nothing wakes the read, the dispatcher goroutine blocks forever, mappings and fds are never released, other sessions stall",
+   detected_by="C14 R14.6 (rule shared with C11 R11.2; added to C14 after this seed was missed by C14's own check)"),
+ "C15-a": dict(property="C15", change="putOrCloseStream: a `case ErrStreamClosed:` arm that neither pools nor closes the stream",
+   needs="the peer closing the stream while a caller holds it (halfClosed), then PutBack: the stream stays in the session table with its buffers",
+   detected_by="C15 R15.2"),
+ "C17-a": dict(property="C17", change="the rebuild-interval timer is created once before the retry loop and never reset",
+   needs="the first rebuild attempt failing (server still unreachable): the goroutine blocks forever on the drained timer, the pool is never rebuilt",
+   detected_by="C17 R17.1 / C11 R11.6 one-shot timer re-arm rule (added after this seed was missed)"),
+ "C19-a": dict(property="C19", change="on the closeCh branch the accept loop closes the stream instead of the wrapped conn (the wait-group reference is never released)",
+   needs="listener closed while a conn of the session is still open, then a further stream on the same session: the session never ends",
+   detected_by="C19 R19.1"),
+ "C20-a": dict(property="C20", change="callback goroutine re-arms with `if len(pending)==0 {break}; atomic.StoreUint32(&callbackInProcess, 1)` instead of the CAS",
+   needs="a message arriving between the goroutine's last moveTo and its re-check: the event loop's CAS succeeds and starts a second goroutine while the first loops: two OnData run concurrently",
+   detected_by="C20 R20.2"),
 }
 for sid, m in SEEDS.items():
     d = "/verif/seeded/" + sid
